@@ -308,6 +308,8 @@ pub(crate) struct WaitSignal(WaitGroup);
 impl Drop for WaitSignal {
     fn drop(&mut self) {
         self.0.done();
+        #[cfg(transparencies_stretto_verif)]
+        crate::verif::emit(|| crate::verif::Event::WaitDone);
     }
 }
 
